@@ -561,6 +561,22 @@ def literal_guard_oracle(ctx):
             ctx.stage_broken('GEN stage: verdict differs on a literal', 'impl %s model %s' % (fields(x).get('ok'), fields(y).get('ok')), {'source': src})
         if v >= INT_MAX - 2:
             ctx.nontrivial(src)
+    # the same sources parsed ONCE and generated three times from the same syntax tree: every generation gives the verdict,
+    # the errors and the code of compile()
+    n_ = impl(ctx, ['GENN ' + files_req(b'm', {b'm': c[0].encode()}) + ' 3' for c in cases])
+    ctx.count('GEN', 3 * len(cases), 'generations from a shared tree')
+    for (src, lit, k), x, o in zip(cases, a, n_):
+        ctx.cov['evaluations'] += 1
+        if is_crash(o):
+            if not is_crash(x):
+                ctx.violation('literal-ub', 'generating three times from one syntax tree crashed: ' + o[:250], {'source': src, 'api': 'parse once, gen three times'})
+            continue
+        fo = fields(o)
+        if fo['differ'] != '-1':
+            ctx.violation('regeneration-differs', 'generation %s from the same syntax tree differs from the first one (source with the literal %s): %s' % (
+                fo['differ'], lit, unhx(fo['second']).decode('latin1')[:200]), {'source': src, 'api': 'parse once, gen three times'})
+        elif not is_crash(x) and (fo['ok'], fo['errs'], fo['code']) != (fields(x)['ok'], fields(x)['errs'], fields(x)['code']):
+            ctx.violation('regeneration-differs', 'gen on a parsed tree gives another verdict / errors / code than compile() on the same files', {'source': src, 'api': 'parse, gen vs compile'})
 
 
 def check_vm_property(ctx):
